@@ -8,20 +8,40 @@ from ._layouts import translate  # noqa: F401  (T1)
 
 MODULES = ["Iodata.Props.C02"]
 RULE = (
-    "per format, quantised objects (a printed real is the integer round(|x|*10^d) and a sign): atom counts cycle through "
-    "1,2,3,9,10,11,99,100,101,999,1000,1001 (thorough: also 9999,10000,10001,12000 and the format's own column "
-    "boundaries) then random 1-40; elements cycle through Z=1..118; magnitudes drawn from classes {0, -0, last digit only, "
-    "smallest/largest value with k integer digits for every k the column holds, wider than the column}; titles empty / "
-    "printable ASCII with inner blanks of length 1..200; bonds 0..many of every type; optional attributes present/absent. "
-    "dump:<fmt> compares the bytes of iodata.api.dump_one with the model's dump, load:<fmt> the re-quantised result of "
-    "iodata.api.load_one on those bytes with the model's load. search:<fmt> evaluates load_one(dump_one(x)) against x "
-    "attribute by attribute on unquantised random objects (tolerance: half a unit of the last printed digit). "
+    "per format, quantised objects (a printed real is the integer round(|x|*10^d) and a sign; a scientific field is the pair "
+    "(d+1 mantissa digits, decimal exponent)). XYZ/SDF/PDB: atom counts cycle through 1,2,3,9,10,11,99,100,101,999,1000,1001,"
+    "9999,10000,10001 (thorough: also 12000, PDB 99999; SDF capped at its 999-atom columns) then random 1-40; elements cycle "
+    "through Z=1..118; magnitudes from the classes {0, -0, last digit only, smallest/largest value with k integer digits for "
+    "every k the column holds, wider than the column}; titles empty / printable ASCII of length 1..200; bonds 0..many of "
+    "every type (PDB: both orders, repeated, up to >4 partners per atom; PDB titles and COMPND of 1, 2, 9, 10, 11, 12, 30, 101 "
+    "lines incl. empty lines; MOL2: atom types / charges present or absent, bond types inside and outside the table); "
+    "optional attributes present/absent. Cube: grid "
+    "shapes cycle through row lengths 1,5,6,7,11,12,13,18,19,25 (row%6 = 0..5), 1..n rows, an empty grid, then random; "
+    "1-11 atoms incl. zero core charges; values with exponents 0,+-1,+-9,+-10,+-99 and three digits. FCHK fields: 1-7 fields "
+    "of the four kinds, array lengths cycling through 0,1,2,4,5,6,7,9..13,17..19,24..26,29..31,35..37,59..61,100, integers "
+    "up to 12 characters and reals with three-digit exponents (touching columns, outside the proved domain: both sides must "
+    "still agree), random subsets of label_patterns; FCHK objects: 1-40 atoms (thorough 334), every subset of masses / "
+    "energy / six charge kinds / gradient / Hessian / dipole / quadrupole / polarizability / SCF density, five run types. "
+    "dump:<fmt> compares the bytes of the real writer (iodata.api.dump_one; fchk-fields: the four _dump_* functions; "
+    "dump-loop:cube: _write_cube_data against the transcribed counter loop) with the model's, load:<fmt> the re-quantised "
+    "result of the real reader on those bytes with the model's load; shuffles:fchk compares tril / _triangle_to_dense / the "
+    "quadrupole order with numpy and the real code; index-loop/index-fill:fcidump the writer's canonical quadruples for "
+    "1..7 orbitals and the array the real reader builds from arbitrary (also non-canonical, repeated) lines; "
+    "grouping/direct-coordinates:poscar the written atom order, element/count lines and inv(cell)^T r for random element "
+    "lists (1-1001 atoms, 1-20 elements) and integer cells. search:<fmt> evaluates load_one(dump_one(x)) against x attribute by "
+    "attribute on unquantised random objects (XYZ, SDF, PDB, MOL2, Cube, FCIDUMP, POSCAR, FCHK with s/p/sp/d shells, "
+    "restricted/unrestricted orbitals and all optional attributes; tolerance: half a unit of the last printed digit). "
     "non-trivial = distinct request"
 )
 TRUSTED = [
     "harness/vh/props/_layouts.py: ast extraction of f-string fields / line slices / words[i] uses and assembly of the Layout records",
     "harness/vh/props/_adapters.py: construction of IOData objects from quantised model objects and exact (Fraction) re-quantisation",
     "lean/Iodata/Drv/Fmt.lean: hex and object (de)coding, splitting of file bytes into lines",
+    "harness/vh/props/_fchk.py expected_fields(): which labels iodata's FCHK dump_one writes for an object with a one-primitive "
+    "basis and one orbital, in which order (structure-level knowledge; values come from the quantised object)",
+    "harness/vh/props/_cube.py, _fchk.py: exact (Fraction) re-quantisation of loaded doubles to mantissa/exponent pairs",
+    "harness/vh/props/_mol2.py, _fcidump.py, _poscar.py: object construction, parsing of the index columns / element and count "
+    "lines of the real writer's output, recovery of the written atom order from tagged coordinates",
 ]
 ASSUMPTIONS = [
     "text-mode I/O: files contain printable ASCII and '\\n' only (universal-newline translation is the identity)",
@@ -30,15 +50,37 @@ ASSUMPTIONS = [
     "int()/float() features not used by any writer (underscores, exponents in fixed fields, inf/nan, non-ASCII digits) are "
     "outside the reader models (the model reports an error where CPython would accept)",
     "titles are single-line and carry no leading/trailing blanks (readers strip them)",
+    "scientific fields carry at most 15 significant digits in the C02/C15 streams, so that format(float(text)) = text in CPython; "
+    "FCHK array elements need a two-digit exponent to stay separated in the 16 columns (E16.8; three-digit exponents of "
+    "negative numbers touch their neighbour in Gaussian's own layout as well)",
+    "Cube: the writer's counter loop is proved equal to the closed form only by computation for row lengths 1..14 (and compared "
+    "byte for byte on every generated case)",
 ]
 TIME_LIMIT = {"quick": 1200, "thorough": 7200}
 
-RW = ["xyz", "sdf", "pdb"]
+RW = ["xyz", "sdf", "pdb"]  # + mol2, cube, fchk fields, fcidump/poscar structure layers (own flows)
 
 
 def correspond(ctx):
+    from . import _fchk
+
     for k in RW:
-        K.corr_roundtrip(ctx, ADAPTERS[k], ctx.n(40, 400))
+        K.corr_roundtrip(ctx, ADAPTERS[k], ctx.n(700, 2500))
+    from ._cube import CUBE, corr_loop
+    from ._fcidump import corr_index
+    from ._mol2 import MOL2
+
+    K.corr_roundtrip(ctx, MOL2, ctx.n(700, 2500))
+    corr_index(ctx, ctx.n(7, 10))
+    from ._poscar import corr_struct
+
+    corr_struct(ctx, ctx.n(200, 800))
+
+    K.corr_roundtrip(ctx, CUBE, ctx.n(800, 3000))
+    corr_loop(ctx, ctx.n(500, 2000))
+    _fchk.corr_fields(ctx, ctx.n(2000, 8000))
+    _fchk.corr_objects(ctx, ctx.n(800, 3000))
+    _fchk.corr_shuffles(ctx)
 
 
 def search(ctx):
@@ -46,9 +88,12 @@ def search(ctx):
     from ._adapters2 import SEARCH_ONLY
 
     for k, ad in SEARCH_ONLY.items():
-        K.search_c02(ctx, ad, ctx.n(30, 400) * mult)
+        K.search_c02(ctx, ad, ctx.n(600, 2500) * mult)
     for k in RW:
-        K.search_c02(ctx, ADAPTERS[k], ctx.n(40, 600) * mult)
+        K.search_c02(ctx, ADAPTERS[k], ctx.n(600, 2500) * mult)
+    from ._fchk import FCHK_FREE
+
+    K.search_c02(ctx, FCHK_FREE, ctx.n(800, 3000) * mult)
 
 
 def replay(ctx, obj):
